@@ -167,7 +167,7 @@ def run_sim(binary, argv, plan=None, cwd=None, stdin=None, env=None, timeout=120
         r.stderr = err or b""
         if p.returncode < 0:
             r.sig = -p.returncode
-            if r.sig == signal.SIGXCPU or (r.sig == signal.SIGKILL and not r.timeout and False):
+            if r.sig == signal.SIGXCPU:
                 r.timeout = True
         else:
             r.rc = p.returncode
